@@ -7,10 +7,11 @@ MODULES = ["Prelude", "C10_Model", "C10_Spec", "C10_Check"]
 PROPS_MODULE = "C10_Properties"
 THEOREMS = ["C10_resolves_iff", "C10_at_most_one", "C10_no_capture", "C10_deleted_stop_resolving",
             "C10_tls_of_owner", "C10_host_normalisation", "C10_request_ignores_sni",
+            "C10_retained_names_never_drop",
             "C10_stale_names_after_failed_sync_witness"]
 EVAL = "C10_Check.eval"
 CLAUSES = ["agree", "resolves_iff", "same_tenant", "no_capture", "deleted_stop", "tls_of_owner", "host_norm", "alive",
-           "request_by_host"]
+           "request_by_host", "mid_update"]
 RULE = ("distinct histories (op lists) in which at least two clusters are stored at some moment and at least one "
         "alias is added to, removed from or refused for a cluster (an update changes a server-name list, a delete "
         "removes a cluster with aliases, or admission refuses a colliding name)")
@@ -93,17 +94,19 @@ def coq_steps(case, obs, share):
     if "panic" in obs or len(steps) != len(case["ops"]):
         return None
     out = []
+    def shared(h):
+        t = coq_host_obs(h)
+        if t not in share:
+            share[t] = "h%d" % len(share)
+        return share[t]
+
     for p, s in zip(case["ops"], steps):
-        hs = []
-        for h in s["hosts"]:
-            t = coq_host_obs(h)
-            if t not in share:
-                share[t] = "h%d" % len(share)
-            hs.append(share[t])
+        hs = [shared(h) for h in s["hosts"]]
+        mids = clist([clist([shared(h) for h in m]) for m in (s.get("mid") or [])])
         xs = clist([cpair(cstr(x["c"]), cZ(x["code"])) for x in s.get("x", [])])
-        so = ("{| t_valid := %s; t_fvalid := %s; t_delivered := %s; t_res := %s; t_hosts := %s; t_x := %s |}" %
+        so = ("{| t_valid := %s; t_fvalid := %s; t_delivered := %s; t_res := %s; t_hosts := %s; t_x := %s; t_mid := %s |}" %
               (cbool(s["valid"]), cbool(s.get("fvalid", False)), cbool(s["delivered"]), cZ(RESCODE.get(s["res"], 3)),
-               clist(hs), xs))
+               clist(hs), xs, mids))
         out.append(cpair(coq_op(p), so))
     return clist(out)
 
@@ -116,10 +119,11 @@ def coq_case(case, obs):
     share = {}   # identical host observations are bound once (let) to keep the case files small
     st = coq_steps(case, obs, share)
     if st is None:  # panic in the harness: a case that disagrees visibly
-        return "{| c_hosts := [(\"x\", \"x\")]; c_xps := []; c_steps := [(ODelete \"x\", {| t_valid := true; t_fvalid := true; t_delivered := true; t_res := 3; t_hosts := []; t_x := [] |})] |}"
+        return "{| c_hosts := [(\"x\", \"x\")]; c_xps := []; c_mid := false; c_steps := [(ODelete \"x\", {| t_valid := true; t_fvalid := true; t_delivered := true; t_res := 3; t_hosts := []; t_x := []; t_mid := [] |})] |}"
     lets = "".join("let %s := %s in " % (n, t) for t, n in share.items())
     xps = clist([cpair(cstr(x[0]), cstr(x[1])) for x in case.get("xp", [])])
-    return "(%s{| c_hosts := %s; c_xps := %s; c_steps := %s |})" % (lets, coq_hosts(case), xps, st)
+    return "(%s{| c_hosts := %s; c_xps := %s; c_mid := %s; c_steps := %s |})" % (
+        lets, coq_hosts(case), xps, cbool(case.get("mid", False)), st)
 
 
 # ----------------------------------------------------------------------------- cases
@@ -146,6 +150,7 @@ def RETRY(k):
 def mk(ops, names, views=False, clusters=()):
     return {"hosts": [B(h) for h in c10gen.hosts_for(names)],
             "xp": [[B(h), B(x)] for h, x in c10gen.xprobes_for(names, None, 16)],
+            "mid": True, "via": len(ops) % 2,
             "ops": ops, "clusters": [B(c) for c in clusters],
             "schemas": [B(s) for s in c10gen.SCHEMAS] + [B(b""), B(b"nosuch")], "fresh": [0, 0, 0], "views": views}
 
